@@ -54,6 +54,14 @@ CHECKS = {
         "note": "Trusted: TLC; spec/Lexer.tla as the judge of token preservation (never the lexer under test); single-gap candidates are judged on a four-token window.",
         "technique": "TLA+ layout relation over the reference scanner (TLC decides token preservation) + differential run of the real transpiler on base and re-layout",
     },
+    "C13": {
+        "text": "spec/Totality.tla (the outcome protocol of one Transpile call) is model-checked exhaustively incl. termination under fairness; spec/TotalRun.tla binds "
+                "recorded outcomes to it: every call (both targets) runs in a worker subprocess with stack, memory and time caps and must end in exactly one of the two "
+                "well-formed returns; inputs: all strings up to length 3/4 over 16 characters (TLC-enumerated, lexical errors decided by the reference scanner), every "
+                "single-token edit of 47 base programs, all 729 import graphs over three files judged by spec/TshModules.tla, near-miss programs, seeded random texts.",
+        "note": "Trusted: TLC; the worker harness attributes a dead worker or exceeded deadline to the single input it was processing; bytes are represented by ASCII plus one UTF-8 letter.",
+        "technique": "TLA+ outcome protocol model-checked by TLC + trace validation of recorded Transpile outcomes from sandboxed workers",
+    },
 }
 
 NOT_APPLICABLE = {}
